@@ -65,6 +65,9 @@ func genC01(t *rapid.T) C01Scn {
 			OvA:   rapid.Bool().Draw(t, "ova"), OvB: rapid.Bool().Draw(t, "ovb"),
 			DelAB: genDelays(t, "dab"), DelBA: genDelays(t, "dba")})
 	}
+	if rapid.IntRange(0, 2).Draw(t, "idleskew") == 0 {
+		s.IdleSlow = rapid.SliceOfNDistinct(rapid.IntRange(0, n-1), 1, (n+1)/2, func(i int) int { return i }).Draw(t, "idleslow")
+	}
 	nev := rapid.IntRange(0, 8).Draw(t, "nev")
 	// one scenario in six: nodes that have been up for hundreds of update periods before the first event, one of which then restarts
 	// (what a restarted node is remembered by - epoch, sequence number - is then far ahead of what its new incarnation sends)
@@ -90,6 +93,11 @@ func genC01(t *rapid.T) C01Scn {
 		}
 		s.Events = append(s.Events, C01Event{Kind: k, Idx: rapid.IntRange(0, 20).Draw(t, "idx"),
 			GapMs: rapid.SampledFrom([]int{0, 0, 10, 60, 150, 300}).Draw(t, "gap")})
+		if k == "silent" && rapid.Bool().Draw(t, "heals") {
+			// the failure goes away again: the link works for new sessions while each side still holds the dead one until its own idle
+			// limit strikes, so the side that gives up first re-dials a peer that believes it is still connected
+			s.Events = append(s.Events, C01Event{Kind: "linkUp", Idx: s.Events[len(s.Events)-1].Idx, GapMs: rapid.SampledFrom([]int{300, 1500, 3000}).Draw(t, "healgap")})
+		}
 	}
 	return s
 }
@@ -97,7 +105,7 @@ func genC01(t *rapid.T) C01Scn {
 func TestC01(t *testing.T) {
 	st := vx.NewStats("C01", "mesh", "real in-process meshes of 2-7 nodes over ordered in-memory links (spanning tree + extra edges, sometimes two "+
 		"components; costs multiples of 0.25 with deliberate ties, expressed as backend default or per-node override) with 0-8 events "+
-		"{linkDown, linkUp, silent failure, nodeStop, nodeRestart} at drawn gaps and per-link delay lists; one scenario in six runs with a 25 ms update period and 8 s of uptime (320 updates per node) before a node restart; oracle = Floyd-Warshall on the true live graph; "+
+		"{linkDown, linkUp, silent failure, nodeStop, nodeRestart} at drawn gaps and per-link delay lists; in a third of the scenarios some nodes have four times the idle limit of the others; a silent failure heals again in half of the cases (new sessions work while each side holds the dead one until its own idle limit); one scenario in six runs with a 25 ms update period and 8 s of uptime (320 updates per node) before a node restart; oracle = Floyd-Warshall on the true live graph; "+
 		"non-trivial = >=3 nodes and (events changed some node's expected table, or a multi-hop route with a cost tie); distinct by canonical JSON")
 	defer st.Flush()
 	r := &vx.Runner{Name: "C01", Timeout: 150 * time.Second, Recycle: 40}
